@@ -8,6 +8,7 @@ CONSTANTS
   MaxTick = 0
   NP = 2
   Limit = 2
+  MaxAErr = 0
   MaxFail = 1
   MaxAbort = 1
 SPECIFICATION SpecConn
